@@ -358,7 +358,7 @@ func (s *Sim) cleanupFunc(sl int, r *reactive.Resource, id int) func() {
 	}
 }
 
-func (s *Sim) exec(ctx context.Context, ri int, prog []Op, depth int) ([]pair, error) {
+func (s *Sim) exec(ctx context.Context, ri int, prog []Op, depth int, nth int) ([]pair, error) {
 	var out []pair
 	for _, o := range prog {
 		switch o.Kind {
@@ -381,9 +381,13 @@ func (s *Sim) exec(ctx context.Context, ri int, prog []Op, depth int) ([]pair, e
 				s.own(ev{kind: "skip"}, "skip")
 			}
 		case "cache":
+			if o.Alt && nth%2 == 0 {
+				s.own(ev{kind: "skip"}, "skip")
+				continue
+			}
 			body := o.Body
 			v, err := reactive.Cache(ctx, o.Key, func(ctx context.Context) (interface{}, error) {
-				return s.exec(ctx, ri, body, depth+1)
+				return s.exec(ctx, ri, body, depth+1, nth)
 			})
 			if err != nil {
 				return nil, err
@@ -427,8 +431,9 @@ func (s *Sim) computeFunc(ri int) reactive.ComputeFunc {
 		s.mu.Lock()
 		st.ctx = ctx
 		st.computes++
+		nth := st.computes
 		s.mu.Unlock()
-		out, err := s.exec(ctx, ri, s.c.RRs[ri].Prog, 0)
+		out, err := s.exec(ctx, ri, s.c.RRs[ri].Prog, 0, nth)
 		if err == nil {
 			s.mu.Lock()
 			st.pendingOut = out
